@@ -270,9 +270,23 @@ type world struct {
 	tb *ratelimiter.VerifBucket
 }
 
+// managers: one BucketManager per configuration, built from the configured values as startPipeline
+// does; every world takes a fresh host from it, so that what is judged is the bucket the archiver
+// would get - not one made by the bucket constructor behind the manager's back.
+var (
+	managers  = map[config]*ratelimiter.BucketManager{}
+	worldHost int
+)
+
 func newWorld(c config) *world {
 	clock = 0
-	return &world{judge: newJudge(c), tb: ratelimiter.VerifNewBucket(float64(c.Cap), c.rate())}
+	bm := managers[c]
+	if bm == nil {
+		bm = ratelimiter.NewBucketManager(context.Background(), 1, float64(c.Cap), c.rate(), 5*time.Minute)
+		managers[c] = bm
+	}
+	worldHost++
+	return &world{judge: newJudge(c), tb: ratelimiter.VerifManagedBucket(bm, fmt.Sprintf("h%d.example", worldHost))}
 }
 
 // apply runs one event on the real bucket and judges it. The bucket and clock must hold the pre-state.
